@@ -9,6 +9,7 @@ import (
 type checkFn func(*Ctx) (string, []string)
 
 var registry = map[string]checkFn{
+	"C04": checkC04,
 	"C07": checkC07,
 	"C22": checkC22,
 	"C25": checkC25,
